@@ -37,6 +37,20 @@ CHECKS = {
              note=T_BASE + '; crc32c by contract; the DAG-ordering induction is bounded, never counted as proved',
              technique='contracts on the real functions, symbolic execution (bounded cell count, symbolic contents), loop/statement cut with havoc for the unbounded width obligations, z3; exhaustive native enumeration (bounded) for Cell.order',
              design_ref='DESIGN.md §5 C04'),
+ 'C05': dict(category='other',
+             text='Deductive: for every header a conforming encoder can write (3 magics x size 1..4 x off_bytes x index/CRC/cache-bit sets '
+                  'x 1-2 roots x 1 or 3 index entries; all count fields and index entries SYMBOLIC over their full width; opaque cell data '
+                  'of symbolic length) deserialize_boc_header returns exactly the encoded fields, root list and cell data; acceptance '
+                  'implies exact total length (any extension or truncation raises) and, with a CRC, trailer == crc32c(prefix) for an '
+                  'arbitrary trailer; deserialize_cell equals the specification cell decoding for every data length 0..1023, reference '
+                  'count, level, stored hashes, exotic type byte (signed), and rejects absent/short/exotic-short cells; Boc.deserialize with '
+                  'SYMBOLIC reference indexes returns cells only for forward existing references; bit-vector lemmas on the CRC-32C step '
+                  '(linearity, non-zero in => non-zero out) make any single-bit difference change the CRC for every length.  BOUNDED: '
+                  'composition on whole bags and the header-field cases of single-bit flips — random foreign encodings with every encoder '
+                  'freedom, every single-bit flip of CRC-protected ones, all truncations, extensions.',
+             note=T_BASE + '; crc32c by contract (C18); list lengths in the header obligations are bounded (<=2 roots, <=3 index entries)',
+             technique='contracts on the real parser functions, symbolic execution over structured symbolic encodings produced by an independent specification encoder, bit-vector lemmas, z3; native corruption sweep (bounded)',
+             design_ref='DESIGN.md §5 C05'),
  'C08': dict(category='proof',
              text='Heap invariant I (no container of a Cell is reachable from any Slice/Builder/other Cell; distinct derived objects '
                   'share no container) is proved to be re-established by EVERY derivation route (begin_parse, to_slice, from_cell, '
